@@ -111,6 +111,12 @@ func loadFindings() []Finding {
 	return out
 }
 
+// knownText: the finding's line without the "known:" marker and the property field (printed separately)
+func knownText(fd Finding, id string) string {
+	t := strings.TrimSpace(strings.TrimPrefix(fd.Text, "known:"))
+	return strings.TrimSpace(strings.TrimPrefix(t, "property="+id))
+}
+
 type oblResult struct {
 	O *Obligation
 	R SolveResult
@@ -344,7 +350,7 @@ func cmdCheck(args []string) int {
 		for _, fd := range findings {
 			if fd.Kind == "known" && fd.Property == cfg.ID && fd.Obligation == baseName(o.Name) {
 				matched = true
-				line := fmt.Sprintf("KNOWN-FINDING: property=%s %s", cfg.ID, strings.TrimSpace(strings.TrimPrefix(fd.Text, "known:")))
+				line := fmt.Sprintf("KNOWN-FINDING: property=%s %s", cfg.ID, knownText(fd, cfg.ID))
 				dup := false
 				for _, k := range run.known {
 					if k == line {
@@ -658,7 +664,7 @@ func (run *checkRun) runBounded(b BoundedSpec) {
 					}
 				}
 				if allKnown && strings.Contains(out, "VERIF-FAIL-CLASS: ") {
-					line := fmt.Sprintf("KNOWN-FINDING: property=%s %s", run.cfg.ID, strings.TrimSpace(strings.TrimPrefix(fd.Text, "known:")))
+					line := fmt.Sprintf("KNOWN-FINDING: property=%s %s", run.cfg.ID, knownText(fd, run.cfg.ID))
 					run.known = append(run.known, line)
 					fmt.Println(line)
 					return
